@@ -11,36 +11,10 @@ using namespace MU;
 #define MODE 0
 #endif
 
-// value of a path/cube stored in a SymbolicVarAsgn for the total assignment a (positions >= length: unconstrained)
-static bool asgnMatches(const Asgn& p, unsigned a)
-{
-  bool m = true;
-  for (unsigned i = 0; i < NV; ++i) if (VBASE + i < p.length()) {
-    char x = p.GetIthVariableValue(VBASE + i);
-    m = m & ((x == Asgn::DONT_CARE) | (x == (((a >> i) & 1) ? Asgn::ONE : Asgn::ZERO)));
-  }
-  return m;
-}
-
-// GetPaths: a partition of the assignment space into cubes, each labelled with the value of the function
-static void checkPaths(const MTBDD& f, const Tab& t, bool breakIt)
-{
-  MTBDD::SymVarToValueList paths = f.GetPaths();
-  CHECK(paths.size() >= 1 && paths.size() <= NA, 30);
-  unsigned cnt[NA]; bool good[NA];
-  for (unsigned a = 0; a < NA; ++a) { cnt[a] = 0; good[a] = true; }
-  for (const auto& pv : paths) {
-    CHECK(pv.first.length() <= ALEN, 31);
-    for (unsigned i = 0; i < VBASE; ++i) if (i < pv.first.length()) CHECK(pv.first.GetIthVariableValue(i) == Asgn::DONT_CARE, 32);
-    for (unsigned a = 0; a < NA; ++a) { bool m = asgnMatches(pv.first, a); cnt[a] += m; good[a] = good[a] & (!m | (pv.second == t.v[a])); }
-  }
-  for (unsigned a = 0; a < NA; ++a) { CHECK(cnt[a] == (breakIt && a == 1 ? 2u : 1u), 33); CHECK(good[a], 34); }
-}
-
 extern "C" void harness(void)
 {
 #if MODE == 0
-  Cube c; c.draw(); const Val value = vs_range(NVAL), dflt = vs_range(NVAL);
+  Cube c; c.draw(); const Val value = pick(NVAL), dflt = pick(NVAL);
   Cube q; q.draw();
   const Tab t = c.tab(value, dflt);
   MTBDD f(c.asgn(), value, dflt);
@@ -73,12 +47,12 @@ extern "C" void harness(void)
   vs_observe(d.code()); vs_observe(f.GetValue(q.asgn())); vs_observe(f.GetPaths().size()); vs_observe(k == f);
 #endif
 #else   // ---- MODE 1
-  Cube c1, c2; c1.draw(); const Val v1 = vs_range(NVAL), d1 = vs_range(NVAL);
-  c2.draw(); const Val v2 = vs_range(NVAL);
+  Cube c1, c2; c1.draw(); const Val v1 = pick(NVAL), d1 = pick(NVAL);
+  c2.draw(); const Val v2 = pick(NVAL);
 #ifdef ONE_DEFAULT
   const Val d2 = d1;
 #else
-  const Val d2 = vs_range(NVAL);
+  const Val d2 = pick(NVAL);
 #endif
   const Tab t1 = c1.tab(v1, d1), t2 = c2.tab(v2, d2);
   MTBDD f(c1.asgn(), v1, d1);
